@@ -187,6 +187,7 @@ def run_generic_op(op, model, world, pool, cur_cfg, res, log):
     kind = op["op"]
     X, A = pool[op["data"]] if "data" in op else (None, None)
     world.begin_op()
+    world.current_X = X            # the caller's array of this call (oracles judge against the TRUE data rows)
     world.n_eval = 0
     world.opt_raise_at = None
     saved_fault = world.gemini_fault
